@@ -111,9 +111,11 @@ class VGen:
         if c == 11:
             self.ident()
             return self.r.choice([["randomstate", self.r.randint(0, 9), self.r.randint(0, 3)],
-                                  ["generator", self.r.choice(BITGENS), self.r.randint(0, 9), self.r.randint(0, 3)]])
+                                  ["generator", self.r.choice(BITGENS), self.r.randint(0, 9), self.r.randint(0, 3)] + ([self.r.randint(1, 3)] if self.r.random() < 0.3 else [])])
         if c == 12:
             self.ident()
+            if self.r.random() < 0.25:
+                return ["sparse", self.r.choice(["csr", "csc", "coo"]), self.r.choice([[3, 4], [5, 2]]), self.r.randint(0, 9), "noncanonical"]
             return ["sparse", self.r.choice(SPARSE), self.r.choice([[3, 4], [1, 1], [5, 2]]), self.r.randint(0, 9)]
         if c == 13:
             return self.r.choice([["ufunc", self.r.choice(["np.sqrt", "np.add", "scipy.special.expit"])], ["type", self.r.choice(["int", "list", "np.float64", "np.ndarray", "dict"])]])
